@@ -24,17 +24,42 @@ func lonDiff(a, b float64) float64 {
 
 func init() {
 	engine.Register(&engine.Check{
-		ID:        "C18",
-		Title:     "Projection to a planar CRS and back returns the same point",
-		Technique: "exhaustive choice-tree enumeration (E1) of a point alphabet (domain edges, both hemispheres) x list shapes for EPSG:3857 against closed-form spherical Mercator and the round trip; every code of the bundled EPSG table for the structural claims; unknown codes",
+		ID:          "C18",
+		Title:       "Projection to a planar CRS and back returns the same point",
+		Technique:   "exhaustive choice-tree enumeration (E1) of a point alphabet (domain edges, both hemispheres) x list shapes for EPSG:3857 against closed-form spherical Mercator and the round trip; every code of the bundled EPSG table for the structural claims; unknown codes",
 		Assumptions: []string{"points outside the alphabet are not covered", "closed-form reference: X = R*lon(rad), Y = R*asinh(tan lat), R = 6378137, tolerance 1e-6 m; round trip tolerance 2e-10 degrees"},
 		Phases: func(tier string) []engine.Phase {
 			lons := []float64{-180, -179.9999999999, -90.5, -1e-9, 0, 1e-9, 45.123456789, 139.7, 179.9999999999, 180}
 			lats := []float64{-ref.LatLimit, -85.05, -60.25, -1e-9, 0, 1e-9, 35.6, 66.5, 85.05, ref.LatLimit}
 			alts := []float64{0, -1e-300, 12.345, -33554432, 33554431.999, 1e300}
+			if tier != "thorough" {
+				// a coarse sweep on top of the edges: every 15 degrees of longitude and 10 of latitude, one ulp either side
+				for v := -165.0; v < 180; v += 15 {
+					lons = append(lons, v, math.Nextafter(v, 1000), math.Nextafter(v, -1000))
+				}
+				for v := -80.0; v <= 80; v += 10 {
+					lats = append(lats, v, math.Nextafter(v, 1000), math.Nextafter(v, -1000))
+				}
+			}
+			if tier == "thorough" {
+				// a dense sweep on top of the edges: every 2.5 degrees of longitude and 1.25 degrees of latitude, each
+				// also one ulp either side, the neighbourhoods of the limits in steps of 1e-10 degrees, and more altitudes
+				for v := -177.5; v < 180; v += 2.5 {
+					lons = append(lons, v, math.Nextafter(v, 1000), math.Nextafter(v, -1000))
+				}
+				for v := -85.0; v <= 85; v += 1.25 {
+					lats = append(lats, v, math.Nextafter(v, 1000), math.Nextafter(v, -1000))
+				}
+				for k := 1; k <= 8; k++ {
+					e := float64(k) * 1e-10
+					lons = append(lons, 180-e, -180+e)
+					lats = append(lats, ref.LatLimit-e, -ref.LatLimit+e)
+				}
+				alts = append(alts, 1e-300, 5e-324, -0.5, 1, 8848.86, -10994, 1e6, -1e6)
+			}
 			return []engine.Phase{
 				{Name: "mercator-3857", ShardDepth: 2, Bounds: engine.Bounds{InputDev: -1},
-					Rule: "full product lon x lat x alt alphabets: forward = closed-form spherical Mercator to 1e-6 m, altitude bit-for-bit, back-conversion within 2e-10 degrees (lon mod 360); a failure is classified [only-with-nonzero-altitude] when the same point with altitude 0 passes; non-trivial = distinct points on a domain edge",
+					Rule: "full product lon x lat x alt alphabets (10 x 10 x 6 edge values; quick adds a 15 x 10 degree sweep with one-ulp neighbours; thorough adds a 2.5 x 1.25 degree sweep with one-ulp neighbours, the limits in steps of 1e-10 degrees and 8 more altitudes): forward = closed-form spherical Mercator to 1e-6 m, altitude bit-for-bit, back-conversion within 2e-10 degrees (lon mod 360); a failure is classified [only-with-nonzero-altitude] when the same point with altitude 0 passes; non-trivial = distinct points on a domain edge",
 					Body: func(c *engine.Ctx) {
 						lon := lons[c.In("lon", len(lons))]
 						lat := lats[c.In("lat", len(lats))]
